@@ -39,15 +39,8 @@ theorem layout_fields_have_json :
 theorem bundle_keeps_user_members (m : Model) (b b' : Bundle Vals) (old : Vals) (ho : b.control = some old)
     (h : bundleBuild m b = .ok b') :
     ∃ bc, b'.control = some bc ∧ bc.s "UserField" = old.s "UserField" ∧ bc.s "ID" = old.s "ID" := by
-  unfold bundleBuild at h
-  split at h
-  · cases h
-  · split at h
-    · cases h
-    · split at h
-      · cases h
-      · simp only [Except.ok.injEq] at h
-        subst h
-        simp [ho]
+  have hb := bundleBuild_ok m b b' h
+  subst hb
+  exact ⟨_, rfl, by simp [bundleControlOf, ho], by simp [bundleControlOf, ho]⟩
 
 end Icl.C15
